@@ -416,6 +416,7 @@ func genExtended(r *rand.Rand, maxDepth, maxSize int) (string, []string) {
 		"if ( B0 ? true : false ) { trace(21); } else { trace(22); }\n", "if ( B1 ? false : true ) { trace(23); }\n", "if ( B2 ? B3 : false ) { trace(24); }\n",
 		"if ( (N > 0 ? 1 : 2) + 3 == 4 ) { trace(25); }\n", "trace((B0 ? 10 : 20) * 4);\n", "trace((B1 ? 7 : 9) == 9);\n", "v0 = 0;\nwhile ( v0 < 2 ? true : false ) { v0++; }\n",
 		"trace(8 - 4 / 0);\n", "trace(6 / 0 + 1);\n", "trace([1, 4 / 0]);\n", "trace(9 % 0);\n", "function never() { return 1 % 0; }\n",
+		"trace(3 + √2);\n", "trace(√2 + 3);\n", "trace(2 * √3 - 1);\n", "trace(!-N);\n",
 		"trace(!!N);\n", "trace(!!S);\n", "if ( !!L ) { trace(26); }\n", "trace(!(!M));\n",
 		"v0 += 1 + 2;\n", "v0 -= N * 2;\n", "v0 *= 2;\n", "v0 /= 1 + 1;\n", "v0 += (B0 ? 1 : 2);\n", "v0++;\n", "v0--;\n",
 		"function g24() { 24; }\ng24();\n", "function g280() { 280; }\ng280();\n", "function gv() { v0 = 1; }\ngv();\n",
@@ -468,6 +469,28 @@ func checkC03(src string, watch []string, rep *racReport) *racVio {
 			if da != db {
 				return &racVio{Kind: "stack-residue-differs", Script: src, Input: fmt.Sprintf("run %d of the sequence: %s", i+1, desc), Expected: fmt.Sprintf("unoptimised leaves %d value(s)", db), Got: fmt.Sprintf("optimised leaves %d value(s)", da)}
 			}
+		}
+	}
+	// Prepare again on both evaluators (C19: the same script always gives the same program): one more run
+	if a.e.Prepare() != nil || b.e.Prepare([]byte{NoOptimize}) != nil {
+		return &racVio{Kind: "second-prepare-fails", Script: src, Expected: "Prepare succeeds again", Got: "Prepare failed on the second call"}
+	}
+	obj, _, desc := racObject(6, 2)
+	oa := a.run(obj, watch)
+	ob := b.run(obj, watch)
+	if !sameObserved(ob, oa, true) {
+		return &racVio{Kind: "after-second-prepare", Script: src, Input: "run after a second Prepare on both evaluators: " + desc, Expected: "unoptimised: " + ob.String(), Got: "optimised:   " + oa.String()}
+	}
+	// and against evaluators prepared once
+	c, errC := newRacEval(src, false)
+	if errC == nil {
+		for _, s := range seq {
+			o, _, _ := racObject(s[0], s[1])
+			c.run(o, watch)
+		}
+		oc := c.run(obj, watch)
+		if !sameObserved(oc, ob, true) {
+			return &racVio{Kind: "second-prepare-changes-the-program", Script: src, Input: desc, Expected: "prepared once: " + oc.String(), Got: "prepared twice: " + ob.String()}
 		}
 	}
 	return nil
@@ -844,6 +867,7 @@ var fragmentContexts = []string{
 	"%s;", "if ( %s ) { }", "if ( 1 ) { %s; }", "if ( 0 ) { } else { %s; }", "if ( 0 ) { } else if ( %s ) { }", "while ( %s ) { }", "while ( 0 ) { %s; }",
 	"foreach x in [1] { %s; }", "foreach x in %s { }", "function g() { %s; }", "function g() { return %s; }", "switch ( 1 ) { case %s { } }", "switch ( %s ) { default { } }",
 	"switch ( 1 ) { case 1 { %s; } }", "switch ( 1 ) { default { %s; } }", "v = %s;", "return %s;", "id(%s);", "id(1, %s);", "v = [%s];", "v = [1, %s];", `v = {"k": %s};`,
+	"return 1; %s;", "if ( 1 ) { return 1; %s; }", "function g() { return 1; %s; }", "while ( 0 ) { return 2; %s; }", "foreach x in [1] { return x; %s; }",
 	"v = L[%s];", "v = 1 ? %s : 2;", "v = 1 ? 2 : %s;", "v = (%s);", "v = !(%s);", "v = 1 + (%s);", "return id([%s])[0];",
 }
 
@@ -882,9 +906,11 @@ func TestRAC_C13(t *testing.T) {
 			rep.Runs++
 			var err error
 			var pan interface{}
+			var lastEval *Eval
 			func() {
 				defer func() { pan = recover() }()
 				e := New(src)
+				lastEval = e
 				e.AddFunction("id", func(args []object.Object) object.Object { return &object.Null{} })
 				if optimize {
 					err = e.Prepare()
@@ -892,8 +918,17 @@ func TestRAC_C13(t *testing.T) {
 					err = e.Prepare([]byte{NoOptimize})
 				}
 			}()
+			var err2 error
+			if pan == nil && err != nil {
+				func() {
+					defer func() { pan = recover() }()
+					err2 = lastEval.Prepare()
+				}()
+			}
 			var v *racVio
 			switch {
+			case pan == nil && err != nil && err2 == nil:
+				v = &racVio{Kind: "invalid-script-accepted-by-second-prepare", Script: src, Expected: "an error from every call of Prepare", Got: "the first call failed (" + err.Error() + "), the second call on the same evaluator succeeded"}
 			case pan != nil:
 				v = &racVio{Kind: "prepare-panics", Script: src, Expected: "an error", Got: fmt.Sprintf("panic: %v", pan)}
 			case err == nil:
